@@ -558,8 +558,13 @@ class RecCtx(CtxLog):
     def disagreement(self, stream, case, a, b):
         self.disagreements.append((stream, case, a, b))
 
-    def first(self):
-        return self.violations[0][0] if self.violations else None
+    def first(self, prop=None):
+        """the first recorded violation that is not a recorded (unrepaired) finding of `prop`"""
+        known = {e.get('id') for e in load_known_findings(prop) if e.get('status') == 'known'} if prop else set()
+        for what, _, tags in self.violations:
+            if not (set(t for t in tags if t) & known):
+                return what
+        return None
 
 
 def recheck_via_replay(replay_fn):
